@@ -75,7 +75,7 @@ REQUIRED_CLASSES = (
        "range.r=0", "range.s=0", "range.r=n", "range.s=n", "range.r=n+1", "range.s=n+1", "range.r=2^k", "range.s=2^k",
        "range.r=r+n", "range.s=s+n", "range.both", "range.raw-too-wide",
        "badlen.string", "badlen.strings", "badder.trailing", "badder.prefix", "badder.ber-length", "badder.int-padding",
-       "boundary.s=1", "boundary.s=n-1", "baddigest.verify_digest", "baddigest.sign_digest", "baddigest.sign_digest_deterministic", "vector.A1-retry"]
+       "boundary.s=1", "boundary.s=n-1", "boundary.s=n//2", "boundary.s=infinity", "baddigest.verify_digest", "baddigest.sign_digest", "baddigest.sign_digest_deterministic", "vector.A1-retry"]
 )
 
 
@@ -926,7 +926,7 @@ def enum_boundary_s(tier, shard, nshards, rng):
     i = 0
     for cname in CNAMES:
         n = order(cname)
-        for s_name in ("1", "2", "n-2", "n-1"):
+        for s_name in ("1", "2", "n-2", "n-1", "n//2", "n//2+1", "infinity"):
             i += 1
             if i % nshards != shard:
                 continue
@@ -941,7 +941,29 @@ def check_boundary_s(case, rec):
     rec.cls("boundary.s=" + case["s"])
     rec.nt()
     d, k = case["x"], case["k"]
-    s = {"1": 1, "2": 2, "n-2": n - 2, "n-1": n - 1}[case["s"]]
+    if case["s"] == "infinity":
+        # an INVALID signature with r, s in range for which the verification sum u1*G + u2*Q is the point at infinity: e = -r*d mod n.
+        # It has no x coordinate to compare with r, so it must be rejected with the documented BadSignatureError like any other forgery.
+        r, s_ = 1 + k % (n - 1), 1 + (k >> 7) % (n - 1)
+        e = (-r * d) % n
+        digest = e.to_bytes(olen(n), "big")
+        vk = signing_key(cname, d, "sha256").verifying_key
+        if n.bit_length() % 8 == 0 and g.verify(g.mul(d), digest, r, s_):
+            from vlib.core import HarnessError
+
+            raise HarnessError("oracle: OpenSSL accepts the constructed infinity signature on %s" % cname)
+        for enc in ENCS:
+            sg = enc_sig(enc, r, s_, n)
+            try:
+                ok = vk.verify_digest(sg, digest, sigdecode=sigdecode(enc), allow_truncate=False)
+            except BadSignatureError:
+                continue
+            except Exception as ex:
+                raise Violation("%s %s: a forged signature whose verification sum u1*G + u2*Q is the point at infinity (digest = -r*d mod n, r=%#x s=%#x d=%#x) makes "
+                                "verify_digest raise %s: %s instead of the documented BadSignatureError" % (cname, enc, r, s_, d, type(ex).__name__, ex))
+            raise Violation("%s %s: verify_digest returned %r for a forged signature whose verification sum is the point at infinity" % (cname, enc, ok))
+        return
+    s = {"1": 1, "2": 2, "n-2": n - 2, "n-1": n - 1, "n//2": n // 2, "n//2+1": n // 2 + 1}[case["s"]]
     r = g.mul(k)[0] % n
     if r == 0:
         return
@@ -964,6 +986,15 @@ def check_boundary_s(case, rec):
                 raise Violation("%s %s: a VALID signature (%s) is rejected by verify_digest with %s: %s  [r=%#x s=%#x n=%#x]" % (cname, enc, name, type(ex).__name__, ex, r, s, n))
             if not ok:
                 raise Violation("%s %s: verify_digest returned a falsy value for a valid %s" % (cname, enc, name))
+        # the canonising encoder must emit the LOW s (s <= n/2, i.e. <= n//2 for the odd group orders) - in particular right at the middle
+        try:
+            csig = sk.sign_digest(digest, sigencode=sigencode(enc, True), k=k, allow_truncate=False)
+        except Exception as ex:
+            raise Violation("%s: sign_digest with a canonising encoder raised %s: %s" % (cname, type(ex).__name__, ex))
+        cr, cs = dec_sig(enc, csig, n)
+        if cr != r or cs != min(s, n - s):
+            raise Violation("%s %s: canonising encoder maps s = %s = %#x to %#x; the canonical (low) value is min(s, n-s) = %#x  [n//2 = %#x]" % (
+                cname, enc, case["s"], s, cs, min(s, n - s), n // 2))
     # OpenSSL agrees that it is valid (only where the full-length digest is not truncated by OpenSSL: order bit length multiple of 8)
     if n.bit_length() % 8 == 0:
         if not g.verify(g.mul(d), digest, r, s) or not g.verify(g.mul(d), digest, r, n - s):
